@@ -1,11 +1,22 @@
 /-
-  BB.Read — read_lines (asm.py:2056-2135, with fix F11) over a filesystem model, and assemble()
-  from source text / a path (asm.py:3352-3394).
+  BB.Read — read_lines (asm.py, def read_lines, with fix F11) over a filesystem model, and
+  assemble() from source text / a path.
 
-  Filesystem model: absolute, normalised POSIX paths (no "//", "/./", "/../", no trailing "/")
-  mapped to file contents; directories are listed separately.  os.path.exists / join / dirname /
-  abspath / getsize and open().read() are modelled on such paths only; anything else is
-  `Err.unsupported`.  Text files must be ASCII (the model of the lexer is ASCII-only).
+  Filesystem model: a POSIX filesystem WITHOUT symbolic links.  `FS.files` / `FS.dirs` list the
+  regular files (with their bytes) and the directories under their absolute paths in NORMAL FORM
+  (no "//", "/./", "/../", no trailing "/"; every ancestor of an entry is listed in `dirs`).
+  Path STRINGS are kept exactly as the code builds them (`os.path.join(dir, rel)` verbatim — the
+  code never normalises the path it opens, and error messages / `Line.file` carry that string);
+  `FS.resolve` is what the operating system does with such a string: walk the components from the
+  root, every step starting from an existing directory, "" and "." staying, ".." going to the
+  parent (of the root: the root), a name descending — and the final entry must exist.
+  `os.path.exists / isdir / getsize / open().read()` = `existsAt / isDirAt / readAt` go through it.
+  `os.path.abspath` of an absolute path (`normPath`) is lexical, as in Python.
+  `FS.readBytes / isDir / exists` are the same questions for a path already in normal form
+  (used by the command-line model BB.Cli).
+  Outside the model (`Err.unsupported`): symbolic links, a leading "//" (which POSIX and
+  os.path.normpath keep apart from "/"), NUL characters in paths, relative -i directories or main
+  paths (they depend on the working directory by definition), non-ASCII source text.
 -/
 import BB.Lex
 import BB.Parse
@@ -13,9 +24,11 @@ import BB.Passes
 namespace BB
 
 structure FS where
-  files : List (String × List Nat)     -- absolute path ↦ bytes
-  dirs : List String                   -- absolute paths of directories
+  files : List (String × List Nat)     -- absolute normal path ↦ bytes
+  dirs : List String                   -- absolute normal paths of directories
   deriving Repr, Inhabited
+
+/-! ### questions about a path in normal form -/
 
 def FS.readBytes (fs : FS) (p : String) : Option (List Nat) := fs.files.lookup p
 def FS.isDir (fs : FS) (p : String) : Bool := fs.dirs.contains p
@@ -34,17 +47,84 @@ def normAbs (p : String) : Bool :=
 def normRel (p : String) : Bool :=
   p ≠ "" && !(p.toList.head? = some '/') && (p.splitOn "/").all (fun c => c ≠ "" ∧ c ≠ "." ∧ c ≠ "..")
 
-/-- `os.path.join(dir, path)` for a normalised absolute `dir` -/
+/-! ### path strings as the code builds them -/
+
+/-- `os.path.join(dir, path)` -/
 def pathJoin (dir path : String) : String :=
   if path.toList.head? = some '/' then path
-  else if dir = "/" then "/" ++ path else dir ++ "/" ++ path
+  else if dir = "" ∨ dir.toList.getLast? = some '/' then dir ++ path else dir ++ "/" ++ path
 
-/-- `os.path.dirname` of a normalised absolute path -/
+/-- `os.path.dirname(p)`: everything up to the last "/", trailing slashes removed unless that is
+    all there is -/
 def pathDirname (p : String) : String :=
-  let comps := (p.splitOn "/").drop 1
-  match comps.dropLast with
+  let head := (p.toList.reverse.dropWhile (fun c => c ≠ '/')).reverse
+  if head.all (fun c => c = '/') then String.ofList head
+  else String.ofList (head.reverse.dropWhile (fun c => c = '/')).reverse
+
+/-- `s.split('/')` -/
+def splitSlash : List Char → List (List Char)
+  | [] => [[]]
+  | c :: cs =>
+    match splitSlash cs with
+    | [] => [[]]
+    | h :: t => if c = '/' then [] :: h :: t else (c :: h) :: t
+
+/-- the absolute normal path with these components (innermost first) -/
+def stackPath (stack : List (List Char)) : String :=
+  match stack with
   | [] => "/"
-  | cs => "/" ++ "/".intercalate cs
+  | _ => String.ofList (stack.reverse.flatMap (fun c => '/' :: c))
+
+/-- one component of a path, applied lexically: "" and "." stay, ".." pops, a name pushes -/
+def stepComp (stack : List (List Char)) (c : List Char) : List (List Char) :=
+  if c = [] ∨ c = ['.'] then stack else if c = ['.', '.'] then stack.tail else c :: stack
+
+/-- `os.path.normpath` / `os.path.abspath` of an absolute path that does not start with "//":
+    purely lexical -/
+def normPath (p : String) : String :=
+  match p.toList with
+  | '/' :: cs => stackPath ((splitSlash cs).foldl stepComp [])
+  | _ => p
+
+/-! ### what the operating system does with a path string (no symbolic links) -/
+
+/-- the directory with these components exists (the root always does) -/
+def FS.dirAt (fs : FS) (stack : List (List Char)) : Bool :=
+  stack.isEmpty || fs.dirs.contains (stackPath stack)
+
+/-- walk the components; every step starts from an existing directory -/
+def FS.walk (fs : FS) : List (List Char) → List (List Char) → Option (List (List Char))
+  | stack, [] => some stack
+  | stack, c :: rest => if fs.dirAt stack then fs.walk (stepComp stack c) rest else none
+
+/-- the normal form of the existing file or directory the string `p` names; `none` = no such
+    file or directory (or not a directory on the way, or `p` is not absolute) -/
+def FS.resolve (fs : FS) (p : String) : Option String :=
+  match p.toList with
+  | '/' :: cs =>
+    match fs.walk [] (splitSlash cs) with
+    | some stack =>
+      let q := stackPath stack
+      if fs.dirAt stack || (fs.files.lookup q).isSome then some q else none
+    | none => none
+  | _ => none
+
+/-- `os.path.exists(p)` -/
+def FS.existsAt (fs : FS) (p : String) : Bool := (fs.resolve p).isSome
+/-- `os.path.isdir(p)` -/
+def FS.isDirAt (fs : FS) (p : String) : Bool :=
+  match fs.resolve p with
+  | some q => q = "/" || fs.dirs.contains q
+  | none => false
+/-- `open(p, 'rb').read()`; `none` = no such regular file -/
+def FS.readAt (fs : FS) (p : String) : Option (List Nat) := (fs.resolve p).bind (fun q => fs.files.lookup q)
+
+/-- a path string inside the model: no leading "//", no NUL -/
+def pathOk (p : String) : Bool :=
+  !(("//".toList).isPrefixOf p.toList) && !p.toList.contains '\x00'
+
+/-- an absolute path string inside the model -/
+def absOk (p : String) : Bool := p.toList.head? = some '/' && pathOk p
 
 /-- `str.splitlines()` on ASCII text: \n, \r\n, \r, \v, \f, \x1c, \x1d, \x1e -/
 def isLineBreak (c : Char) : Bool :=
@@ -71,10 +151,14 @@ def stripQuotes (l : List Char) : List Char :=
 /-- `lookup(path, dirs)` -/
 def lookupPath (fs : FS) (rel : String) : List String → Option String
   | [] => none
-  | d :: ds => if fs.exists (pathJoin d rel) then some (pathJoin d rel) else lookupPath fs rel ds
+  | d :: ds => if fs.existsAt (pathJoin d rel) then some (pathJoin d rel) else lookupPath fs rel ds
 
 def bytesToAscii (bs : List Nat) : Option (List Char) :=
   if bs.all (· < 128) then some (bs.map Char.ofNat) else none
+
+/-- the directory nested includes of the file `p` are relative to:
+    `os.path.dirname(os.path.abspath(p))` -/
+def baseOf (p : String) : String := pathDirname (normPath p)
 
 /-- read_lines on an already-read source; `fuel` bounds the include depth -/
 def readLinesAux (fs : FS) (includeDirs : List String) : Nat → String → String → List Char →
@@ -94,18 +178,18 @@ def readLinesAux (fs : FS) (includeDirs : List String) : Nat → String → Stri
             match splitWs (stripComment raw) with
             | [_, rel] =>
               let rel := String.ofList (stripQuotes rel)
-              if !(normRel rel || normAbs rel) then .error (.unsupported "include path form") else
+              if !(pathOk rel) then .error (.unsupported "include path form") else
               match lookupPath fs rel currentDirs with
               | none => .error (.asm line)
               | some incPath =>
-                if fs.isDir incPath then .error (.internal "IsADirectoryError") else
-                match fs.readBytes incPath with
+                if fs.isDirAt incPath then .error (.internal "IsADirectoryError") else
+                match fs.readAt incPath with
                 | none => .error (.internal "FileNotFoundError")
                 | some bs =>
                   match bytesToAscii bs with
                   | none => .error (.unsupported "non-ASCII source")
                   | some src => do
-                    let inc ← readLinesAux fs includeDirs fuel incPath (pathDirname incPath) src
+                    let inc ← readLinesAux fs includeDirs fuel incPath (baseOf incPath) src
                     let more ← go (n + 1) rest
                     pure (inc ++ more)
             | _ => .error (.asm line)
@@ -113,11 +197,11 @@ def readLinesAux (fs : FS) (includeDirs : List String) : Nat → String → Stri
             match splitWs raw with
             | [kw, rel] =>
               let rel := String.ofList rel
-              if !(normRel rel || normAbs rel) then .error (.unsupported "include path form") else
+              if !(pathOk rel) then .error (.unsupported "include path form") else
               match lookupPath fs rel currentDirs with
               | none => .error (.asm line)
               | some incPath =>
-                match fs.readBytes incPath with
+                match fs.readAt incPath with
                 | none => .error (.unsupported "include_bytes of a directory")
                 | some bs => do
                   let line' : Line := { line with
@@ -128,7 +212,9 @@ def readLinesAux (fs : FS) (includeDirs : List String) : Nat → String → Stri
           else do
             let more ← go (n + 1) rest
             pure (line :: more)
+    termination_by rest => (fuel, rest.length + 1)
     go 1 (splitLines source)
+termination_by fuel _ _ _ => (fuel, 0)
 
 /-- what `assemble()` is given: source text, or the path of a file -/
 inductive Input where
@@ -146,20 +232,20 @@ def lexLine (l : Line) : Except Err (List String) :=
 /-- read + lex + parse (asm.py:3365-3372) -/
 def frontEnd (fs : FS) (cwd : String) (includeDirs : List String) (input : Input) : Except Err (List Item) := do
   if !normAbs cwd then throw (.unsupported "cwd form")
-  if !includeDirs.all normAbs then throw (.unsupported "include dir form")
+  if !includeDirs.all absOk then throw (.unsupported "include dir form")
   let fuel := fs.files.length + 2
   let lines ← match input with
     | .source text =>
       if !text.toList.all (fun c => c.toNat < 128) then throw (.unsupported "non-ASCII source")
       readLinesAux fs includeDirs fuel "<string>" cwd text.toList
     | .path p =>
-      if !normAbs p then throw (.unsupported "path form")
-      match fs.readBytes p with
+      if !absOk p then throw (.unsupported "path form")
+      match fs.readAt p with
       | none => throw (.unsupported "main file missing")
       | some bs =>
         match bytesToAscii bs with
         | none => throw (.unsupported "non-ASCII source")
-        | some src => readLinesAux fs includeDirs fuel p (pathDirname p) src
+        | some src => readLinesAux fs includeDirs fuel p (baseOf p) src
   let lines := lines.filter (fun l => l.contents.length > 0)
   -- tokens = [lex_tokens(l) for l in lines]; tokens = [t for t in tokens if len(t) > 0]
   let rec lexAll : List Line → Except Err (List (Line × List String))
@@ -179,7 +265,7 @@ def frontEnd (fs : FS) (cwd : String) (includeDirs : List String) (input : Input
   parseAll toks
 
 def textHooks (fs : FS) : Hooks :=
-  { arith := evalArith, parseImm := parseImmediate, readFile := fun p => fs.readBytes p }
+  { arith := evalArith, parseImm := parseImmediate, readFile := fun p => fs.readAt p }
 
 /-- `assemble(path_or_source, compress=…, include_dirs=…)` with fresh label / constant tables -/
 def assembleText (fs : FS) (cwd : String) (includeDirs : List String) (compress : Bool) (input : Input) :
